@@ -407,5 +407,8 @@ def synthetic(ctx, kind, data):
                 if exc is None and not lenient:
                     check_after(ctx, fam, "layout module delete", cur, after, None, d2)
             if exc is not None:
+                ctx.count("iff:layout-exc-" + str(exc))
                 break
+            if not lenient and ctx.model.call("iff_wf", fam, hx(after)) != "ok 1":
+                break          # reported above; do not continue a history on a file the implementation corrupted
             cur = after
